@@ -406,7 +406,9 @@ fn do_propagate_fallback_levels(
             fallback,
             span,
         } => {
-            let new_child = do_propagate_fallback_levels(arena, child, fallback_level);
+            // Levels inside a word are relative to the word: the same within-word expression
+            // must compile to the same automaton whichever `||` branch it sits in.
+            let new_child = do_propagate_fallback_levels(arena, child, 0);
             if child == new_child && fallback == fallback_level {
                 expr_id
             } else {
